@@ -20,7 +20,11 @@ Tie 3 (exact) + component oracle: flagleg.py -- extracted FlagModel.tool_pack (p
 Tie 4 (exact): orderleg.py -- extracted OrderModel.order_dir / order_ops (directory scan resp. add operations ->
   fstree_post_process -> fstree_sort_files on that list -> the list pack_files iterates: the function
   layout_follows_sort_file is about) vs the real gensquashfs -D/-F -S image of trees with incompressible, pairwise
-  different contents: files by data start offset, files by fragment reference, `packing` lines, acceptance."""
+  different contents: files by data start offset, files by fragment reference, `packing` lines, acceptance.
+Tie 5 (exact) + line oracle: lineleg.py -- extracted SortFileModel.parse_sort_line / print_sort_line vs ONE iteration of
+  the line loop of fstree_sort_files (istream_get_line, '#', decode_priority, decode_flags, decode_filename; h_line.c) on
+  lines printed by the extracted printer from generated entries (the round-trip theorem evaluated on the real decoders),
+  the same entries in the other documented spellings, and one-defect malformed lines by class."""
 import ctypes
 import glob as globmod
 import json
@@ -40,6 +44,7 @@ sys.path.insert(0, HERE)
 import sqimg  # noqa: E402
 import flagleg  # noqa: E402
 import orderleg  # noqa: E402
+import lineleg  # noqa: E402
 
 LEVEL = "proof"
 ENV = dict(os.environ, ASAN_OPTIONS="detect_leaks=0", LC_ALL="C")
@@ -1087,6 +1092,9 @@ def run(ctx):
         "props/C17/orderleg.py + driver_order.ml (order leg: case generation, the host tree / add operations handed to the "
         "extracted order_dir / order_ops - for -F the translation of `dir` / `file` lines into fstree_add_generic calls is "
         "restated in Python (C16 owns the parser) - and the decoding of data start offsets / fragment references with sqimg.py)",
+        "props/C17/lineleg.py + h_line.c + driver_line.ml (line leg: h_line.c repeats the five statements of the loop body of "
+        "fstree_sort_files in front of the matching loop around the included decoders; the expectations of the written / "
+        "malformed streams are the generator's reading of gensquashfs(1) SORT FILE FORMAT, py_canon restates canonicalize_name)",
     ]
     ctx.assumptions += [
         "first_match_wins assumes distinct canonical paths in the file list (true for the nodes of one fstree) and that "
@@ -1128,6 +1136,10 @@ def run(ctx):
             finish_order(ctx, info, ores, work, seen)
             report_share(ctx, ores, seen)
             ctx.coverage["evaluations"] = 1
+        elif kind == "line":
+            lres = lineleg.run_leg(ctx, info, [lineleg.case_of_replay(rp)])
+            lineleg.report(ctx, lres, seen)
+            ctx.coverage["evaluations"] = 1
         elif kind == "pack":
             cases = [tuple(rp["case"])]
             bad = tie_pack(ctx, h_pg, h_pt, drv, cases)
@@ -1154,6 +1166,22 @@ def run(ctx):
     ctx.log("sort tie: %d cases, F08-explained mismatches %d, other mismatches %d, property failures %d"
             % (len(cases), len(t["f08"]), len(t["broken"]), len(t["prop_bad"])))
     tie_broken = finish_sort(ctx, info, t, work, seen, search=False)
+    # ---- tie 5: the line parser / printer (SortFileModel) vs the decoders of sort_by_file.c ----
+    n_line = 1500 if quick else 60000
+    if tie_broken or ctx.proof_broken:
+        n_line *= 3
+    lcases = lineleg.gen_cases(ctx.seed, n_line)
+    lres = lineleg.run_leg(ctx, info, lcases)
+    lst = lres["stats"]
+    ctx.log("line leg: %d lines (%d printed by the extracted printer), accepted %d, refused %d, skipped %d; expectation "
+            "failures %d, tie mismatches %d" % (lst["cases"], lst["printed"], lst["accepted"], lst["refused"], lst["skipped"],
+                                               len(lres["bad"]), len(lres["tie_bad"])))
+    tie_broken |= lineleg.report(ctx, lres, seen)
+    ctx.coverage["evaluations"] += lst["cases"]
+    ctx.coverage["traces_validated_against_impl"] += lst["tied"]
+    ctx.coverage["distinct_nontrivial"] += lst["accepted"] + lst["refused"]
+    ctx.coverage.setdefault("distribution", {})["line_leg"] = dict(lst)
+    ctx.add_samples(lres["samples"])
     # ---- tie 2 ----
     pcases = gen_pack_cases(ctx, 700 if quick else 5000)
     bad = tie_pack(ctx, h_pg, h_pt, drv, pcases)
@@ -1242,7 +1270,12 @@ def run(ctx):
         "random bytes made pairwise different per block and tail; sizes k*bs + {0,1,17,300,bs-1}, tail-only and empty "
         "files) x sort files of 1..7 lines (exact / glob / glob_no_path lines, quoted names with escapes, leading '/', './', "
         "'//', comments, blank lines, CRLF, padded flag lists, int64 edge priorities, ties, 8%% with a malformed line) x -T x -j "
-        "x readdir order / line order of the description file shuffled" % ctx.seed)
+        "x readdir order / line order of the description file shuffled; line leg: 32 fixed lines (manual's example, empty flag "
+        "list, both glob keywords, int64 edges, one per malformed class) + seeded random entries (priority small / int64 edges / "
+        "uniform, glob mode, flag subsets, names over 26 pieces incl. blanks, quotes, backslash, brackets, '#', ',', '.', '..', "
+        "control and high bytes, '//' and leading './') as 30%% printed by the extracted printer (+ LF / CRLF), 30%% written by "
+        "hand (unquoted / quoted name, tabs, padded / repeated / both glob keywords, '[]', indentation, blank lines in front), "
+        "32%% one-defect malformed lines of 16 classes, 8%% random byte edits" % ctx.seed)
 
 
 def finish_sort(ctx, info, t, work, seen, search):
@@ -1397,3 +1430,4 @@ def setup():
     core.build_model_driver("C17", "ExtractC17.v", os.path.join(HERE, "driver.ml"), stubs_c=os.path.join(HERE, "stubs.c"))
     flagleg.model_driver()
     orderleg.model_driver()
+    lineleg.model_driver()
